@@ -31,14 +31,29 @@ RULE = ("corpus, then a boundary table enumerated in full (CON/NON registrations
         "earlier notifications unacknowledged or queued; during the first render) x rendered / explicit final message x "
         "CON / NON x one or two observers; Reset of "
         "a NON notification; duplicates and noise; a resource whose add_observation suspends after accepting x every "
-        "ending cause inside and after that window - oracle only), then random scripts from env.rng. Non-trivial: at least one "
+        "ending cause inside and after that window - oracle only; a transport error reported SYNCHRONOUSLY from inside the "
+        "send of a datagram (sendmsg() raises: udp6 calls dispatch_error before send() returns) x which datagram (first "
+        "response piggy-backed / separate / NON, a notification, a last-marked / explicit / unsuccessful / raising one, "
+        "the answer to a new request on the token) x what the task still does in that step (nothing; renders again "
+        "immediately / suspending / raising / for a last-marked or unsuccessful pending trigger) x CON / NON x other "
+        "registrations of the endpoint (none, second token, other endpoint), twice in a row, for an unrelated endpoint, "
+        "disarmed, followed by shutdown; on the message layer's own transmissions (retransmission, backlog, empty ACK) - "
+        "oracle only; long bursts of 8-100 separately rendered changes (sizes around powers of two and round decimal "
+        "numbers) while the observer's ACK is late (slow ACK / ACK of the retransmission) x alone / a prompt second "
+        "observer / a second token of the same endpoint / a NON observer, then quiet), then random scripts from env.rng "
+        "(incl. armed send failures). Non-trivial: at least one "
         "notification beyond the first response was put on a pipe, or a registration ended.")
 TRUSTED = ["virtual-clock event loop and fake-socket UDP stack of the harness (vloop.py, netsim.py)",
            "instance-level wrappers the harness installs on Context.render_to_pipe / Site.render_to_pipe / "
-           "ServerObservation.accept to log pipe events and attribute log records to render tasks"]
+           "ServerObservation.accept / the request pipe's add_response to log pipe events and attribute log records "
+           "to render tasks; the iteration counter on the harness's own loop (one task step per loop iteration); the "
+           "fake network's delivery hook that makes sendmsg() raise for an armed destination"]
 ASSUMPTIONS = ["asyncio task semantics: a step is atomic between awaits; a cancelled task gets CancelledError at "
                "its next step and runs only `finally`; a task cancelled before its first step never runs",
-               "asyncio timer order as on the virtual clock; runs with two inputs at one tick are not compared"]
+               "asyncio timer order as on the virtual clock; runs with two inputs at one tick are not compared",
+               "Task.cancel() called from inside the running task takes effect at its next suspension (the model "
+               "records it at the end of the step); a send failure outside a render task's step (retransmission, "
+               "empty ACK, backlog) is not an input of the shared message-layer model: oracle only"]
 
 
 def _worker(args):
@@ -67,6 +82,9 @@ def run_scripts(env, scripts):
 def oracle(res):
     bad = [("escaped-exception", "exception escaped into the transport: " + e) for e in res["errors"]]
     bad += [("loop-exception", "exception reached the event loop: " + e) for e in res["loop_exceptions"]]
+    # library code raising inside the render task (not the resource's own render): run_driving_pipe turns it into a
+    # 5.00 or drops it, the registration dies of an accident
+    bad += [("C08:render-task-exception", e) for e in res.get("task_errors", [])]
     return bad + c08_oracle.check(res)
 
 
@@ -92,7 +110,7 @@ def run(env, rep):
         case = {"script": script}
         rep.count("script:" + tag.split(":")[0])
         for c in res["concrete"]:
-            rep.count("event:" + c[0])
+            rep.count("event:" + c.split("@")[0])
         for r in res["records"]:
             rep.count("record:" + r.split("/", 1)[1][0])
         rep.count("tasks:%d" % len([c for c in res["concrete"] if c.startswith("R@") and ":1:" in c]))
@@ -113,6 +131,11 @@ def run(env, rep):
             continue
         if res["same_tick_inputs"]:
             rep.count("discarded:same-tick-inputs")
+            continue
+        if res["fail_outside_task"]:
+            # sendmsg() failed for a datagram the message layer sent on its own (a retransmission, an empty ACK,
+            # the backlog going on): the shared message-layer model has no such input
+            rep.count("oracle-only:send-failed-outside-a-task-step")
             continue
         lines.append("C08 " + " ".join(res["args"]))
         cases.append(case)
